@@ -6,23 +6,37 @@ CONF = dict(
     glue='Extract/GlueC07.v',
     rule=('the histories of C06 (same generator), checked after every operation for: 1..8 exchanges per client, distinct receive stamps, queue value >= every stored stamp and '
           '== the newest one for clients whose requests arrived in timestamp order, queue array in binary-heap order, one queue entry per client at the recorded index, '
-          'agreement of queue values and client sets with the model; plus floods: the real store filled to its capacity 2^20 with distinct clients and then hit by further '
+          'agreement of queue values and client sets with the model, and - replayed on the verified container/heap model of the tssQueue array - the observed queue array '
+          'EQUAL slot by slot to the model\'s array and the client\'s qidx equal to the model\'s back-pointer; plus floods: the real store filled to its capacity 2^20 with '
+          'distinct clients and then hit by further '
           'unknown clients that are older than / exactly as recent as / 1 ns older than / newer than the least recently active client, after which the set of surviving '
           'clients, the store and queue sizes after every newcomer, heap order, indices and queue values are compared with the eviction rule; plus the lock-discipline check of '
-          'the source. Non-trivial: histories as in C06, every flood; distinct = distinct (kind, input)'),
+          'the source. Thorough tier in addition (cmd/c07heap): histories with 16..64 clients (queue array several levels deep, equal queue values) with the same slot-by-slot '
+          'comparison, and random Push/Pop/Remove/Fix sequences (arrays up to ~200 slots, many ties) on the real container/heap with a queue type carrying tssQueue\'s methods, '
+          'array, back-pointers and popped element compared with the model after every call. Non-trivial: histories as in C06, every flood, deep histories that fix and remove '
+          'with >= 16 queue slots, heap sequences with pop, remove and fix on >= 8 slots; distinct = distinct (kind, input)'),
     assumptions=['one NTP era for "recency" (Time64.Before compares raw seconds)',
-                 'container/heap meets its documented contract; the sequence of heap calls is not observable, the heap order and back-pointers of the queue array are checked after every operation',
+                 'container/heap is the verified array heap of Model/TssHeap.v (up/down/Push/Pop/Remove/Fix transcribed from src/container/heap/heap.go, Less = strict <, Swap rewriting qidx): '
+                 'heap order, back-pointers, contents and "Pop returns a minimum" are theorems; the transcription is tied to the real package by slot-by-slot comparison of the queue array '
+                 'after every operation (Pop only through the queue-type replica of cmd/c07heap and, without layout, the 2^20 floods)',
                  'data-race freedom of the real binary is a Go-memory-model fact: the theorem is about code that accesses the store only inside critical sections of tssMu; that premise is checked syntactically on every run (tools/lockcheck) and supported by the race detector in the thorough tier'],
-    trusted=['modelled, not verified: container/heap, sync.Mutex, Go maps and goroutines; tools/lockcheck (go/ast walk of core/server)'],
+    trusted=['modelled, not verified: sync.Mutex, Go maps, slices and goroutines; tools/lockcheck (go/ast walk of core/server); the hand transcription of container/heap (validated by the layout comparison)'],
     technique=('Coq proof: the same inductive invariant as C06 gives the bounds, the agreement of index and map and queue value >= newest exchange for all capacities and histories; '
-               'case analysis of the admission decision (evict only the minimum, only when full, only for a newcomer at least as recent; else stateless); a generic theorem that '
-               'critical sections of one mutex serialise in lock order; differential execution incl. 2^20-client floods against the real constant capacity; syntactic lock-discipline check'),
+               'case analysis of the admission decision (evict only the minimum, only when full, only for a newcomer at least as recent; else stateless); a verified array heap '
+               '(container/heap on tssQueue: heap order, qidx back-pointers and contents preserved by Push/Pop/Remove/Fix, fuel of up/down never exhausted, root = minimum) and a '
+               'refinement proof: handleRequest/updateTXTimestamp with the real heap calls behave as the abstract model with victim = the popped root, for every operation and every '
+               'history; a generic theorem that critical sections of one mutex serialise in lock order; differential execution incl. exact queue layout, 2^20-client floods against '
+               'the real constant capacity; syntactic lock-discipline check'),
     level_text=('Theorems hold for all capacities, all histories (incl. more distinct clients than the capacity) and all schedules of any number of goroutines whose accesses lie in '
-                'critical sections of one lock; tied to the code by per-operation comparison of queue values/client sets, structural checks of the real queue array, floods at '
+                'critical sections of one lock; the priority queue is the concrete container/heap array, proved to stay a heap with right back-pointers and to pop a minimum; tied to '
+                'the code by per-operation comparison of queue values/client sets and of the exact queue array, structural checks of the real queue array, floods at '
                 'the real capacity, and the lock-discipline check of the source on every run'),
-    level_note=('Partial: data-race freedom of the binary (lock-discipline model + syntactic check + race detector, not a proof about the Go memory model); container/heap by contract; '
-                'No axioms.'),
-    explanation='per-operation oracle: bounds, distinct stamps, qval >= stamps (== newest when in order), heap order, index/back-pointer consistency, sizes; flood oracle: survivors = eviction rule',
+    level_note=('Partial: data-race freedom of the binary (lock-discipline model + syntactic check + race detector, not a proof about the Go memory model). container/heap is no longer '
+                'assumed by contract: it is modelled as code and verified; what remains trusted is that the transcription matches the package (checked by exact layout comparison; '
+                'heap.Pop of the real store is reachable only by 2^20-client floods, whose layout is not recorded - Pop is compared on the real container/heap with a replica of '
+                'tssQueue in the thorough tier). No axioms.'),
+    explanation=('per-operation oracle: bounds, distinct stamps, qval >= stamps (== newest when in order), heap order, index/back-pointer consistency, sizes; flood oracle: survivors = eviction rule; '
+                 'heap.ops oracle: heap order, distinct keys, qidx = slot index, Pop returned a least element; model comparison: exact queue array and qidx after every operation'),
     timeout_quick=900, timeout_thorough=3000,
-    extra_thorough=[dict(cmd='c07race', race=True)],
+    extra_thorough=[dict(cmd='c07race', race=True), dict(cmd='c07heap')],
 )
